@@ -5,7 +5,7 @@
    subservice; source-id hi; lo], application data, CRC-16/CCITT-FALSE (bitwise definition). *)
 From Coq Require Import ZArith List Lia.
 From SP Require Import Base.Result Base.Bytes Base.Crc16 Model.SpacePacket Spec.SpacePacketSpec
-  Model.PusTc Spec.PusSpec Proofs.PusTcProofs Model.PusTcHist Proofs.PusHeaderRefusal.
+  Model.PusTc Spec.PusSpec Proofs.PusTcProofs Model.PusTcHist Proofs.PusHeaderRefusal Proofs.PusAltCtor.
 Import ListNotations.
 Open Scope Z_scope.
 
@@ -95,3 +95,50 @@ Proof.
   split; [|split; [vm_compute; reflexivity|reflexivity]].
   intros h E. vm_compute in E. injection E as <-. vm_compute. reflexivity.
 Qed.
+
+(* ---- alternative construction paths (PusTc.from_sp_header / from_composite_fields) ---- *)
+(* from_sp_header on ANY caller header (whatever packet type, secondary header flag and data length
+   it carried) with version 0 and unsegmented flags yields the constructor's object, so layout,
+   round trip and CRC theorems above apply to it unchanged *)
+Theorem C02_from_sp_header_is_new : forall pt sh dl apid seq service subservice app source_id ack h t,
+  sph_new pt apid seq dl sh SF_UNSEG 0 = Ok h ->
+  tc_new service subservice apid app seq source_id ack = Ok t ->
+  tc_from_sp_header h service subservice app source_id ack = t.
+Proof. exact tc_from_sp_header_is_new. Qed.
+Print Assumptions C02_from_sp_header_is_new.
+
+(* for every header: type, flag and length are overwritten (length = secondary header + data + 1,
+   i.e. total - 7), the rest of the header is kept, the CRC cache is empty *)
+Theorem C02_from_sp_header_fields : forall h service subservice app source_id ack,
+  let t := tc_from_sp_header h service subservice app source_id ack in
+  ver (tc_sph t) = ver h /\ sflags (tc_sph t) = sflags h /\ apid (tc_sph t) = apid h /\
+  scount (tc_sph t) = scount h /\ ptype (tc_sph t) = PT_TC /\ shf (tc_sph t) = 1 /\
+  dlen (tc_sph t) = PUS_C_SEC_HEADER_LEN + len app + 1 /\
+  tc_app t = app /\ tc_crc t = None /\
+  tc_sec t = {| tcs_service := service; tcs_subservice := subservice;
+                tcs_source_id := source_id; tcs_ack := ack |}.
+Proof. exact tc_from_sp_header_fields. Qed.
+Print Assumptions C02_from_sp_header_fields.
+
+Theorem C02_from_composite_is_new : forall service subservice apid app seq source_id ack t,
+  tc_new service subservice apid app seq source_id ack = Ok t ->
+  tc_from_composite_fields (tc_sph t) (tc_sec t) (tc_app t) = Ok t.
+Proof. exact tc_from_composite_is_new. Qed.
+Print Assumptions C02_from_composite_is_new.
+
+Theorem C02_from_composite_refuses_tm : forall h s app,
+  ptype h = PT_TM -> tc_from_composite_fields h s app = Err EValue /\ documented EValue = true.
+Proof. intros h s app H. split; [exact (tc_from_composite_refuses_tm h s app H)|reflexivity]. Qed.
+Print Assumptions C02_from_composite_refuses_tm.
+
+Theorem C02_from_composite_adopts : forall h s app,
+  ptype h <> PT_TM ->
+  tc_from_composite_fields h s app = Ok {| tc_sph := h; tc_sec := s; tc_app := app; tc_crc := None |}.
+Proof. exact tc_from_composite_adopts. Qed.
+Print Assumptions C02_from_composite_adopts.
+
+(* non-vacuity: a TM-typed, flag-less header of the wrong length handed to from_sp_header *)
+Example C02_from_sp_header_inhabited :
+  exists h t, sph_new PT_TM 5 7 99 0 SF_UNSEG 0 = Ok h /\ tc_new 17 1 5 [1;2] 7 3 15 = Ok t /\
+    tc_from_sp_header h 17 1 [1;2] 3 15 = t.
+Proof. eexists. eexists. split; [vm_compute; reflexivity|]. split; vm_compute; reflexivity. Qed.
